@@ -126,7 +126,9 @@ def generate(rng, opts):
         "auto_setup_merge": rng.choice([None, None, None, "always", "false"]),
         # Griffe is run from a Git hook (pre-commit, pre-push...): Git exports the location of the index and of the
         # repository to the hook's environment
-        "hook_env": rng.choice([None, None, None, None, "index", "index+dir"]),
+        # ("other-repo": the hook belongs to *another* repository - a superproject checking a sibling checkout - so the
+        # variables name that repository; only judged for load_git with an explicit `repo`)
+        "hook_env": rng.choice([None, None, None, None, "index", "index+dir", "other-repo"]),
         "dirty": rng.sample(["modified", "staged", "untracked", "ignored"], rng.choice([0, 0, 1, 2, 3])),
         "user_worktree": rng.choice([None, None, None, None, "live", "live", "live", "stale"]) if all_branches else None,
     }
@@ -671,6 +673,26 @@ def execute(plan, ctx):
             ggit.subprocess = shim
             sys.stderr, sys.stdout = err, io.StringIO()
             hook_env = world["state"].get("hook_env")
+            outer = None
+            if hook_env == "other-repo":
+                hook_env = None
+                if op["op"] == "load_git" and op.get("repo_arg") in ("abs", "pathobj", None):
+                    outer = os.path.join(root, "outer-project")
+                    if not os.path.isdir(outer):
+                        os.makedirs(outer)
+                        _git(outer, "init", "-q", "-b", "main")
+                        with open(os.path.join(outer, "README"), "w") as fh:
+                            fh.write("superproject\n")
+                        _git(outer, "add", "-A", env=_env(0))
+                        _git(outer, "commit", "-q", "-m", "outer", env=_env(0))
+                        for b in ("griffe-v1", "griffe-v2", "griffe-1-0-0", "griffe-release-1-0", "griffe-HEAD", "griffe-main", "griffe-dev", "griffe-feature-x", "griffe-HEAD-1"):
+                            _git(outer, "branch", b)
+                    outer_before = snapshot(outer, root, tmpdir)
+                    ogit = os.path.join(outer, ".git")
+                    os.environ["GIT_DIR"] = ogit
+                    os.environ["GIT_INDEX_FILE"] = os.path.join(ogit, "index")
+                    os.environ["GIT_WORK_TREE"] = outer
+                    ctx.fault("hook-environment-other-repo")
             if hook_env:
                 gitdir = _git(repo, "rev-parse", "--absolute-git-dir").strip()
                 os.environ["GIT_INDEX_FILE"] = os.path.join(gitdir, "index")
@@ -764,6 +786,11 @@ def execute(plan, ctx):
                 for key in [k for k in sys.path_importer_cache if k.startswith(root)]:
                     del sys.path_importer_cache[key]
             after = (snapshot(repo, root, tmpdir), snapshot(main_repo, root, tmpdir) if main_repo != repo else None)
+            if outer is not None:
+                d = snap_diff(outer_before, snapshot(outer, root, tmpdir))
+                if d is not None:
+                    ctx.fail("G-other-repo-" + d[0], f"after {op['op']}({op.get('ref')}) with the Git variables of another repository in the environment, that repository changed: {d[0]}: {_short(d[1])} -> {_short(d[2])}", tags=_tags(world, op, faults, shim, ctx))
+                    break
             ctx.log("op", (oi, op["op"], op.get("ref", op.get("against")), outcome, tuple(shim.sites), counter["n"]))
             trace.append((op["op"], outcome, tuple(sorted(f["kind"] + ":" + str(f.get("how", f.get("at", ""))) for f in faults))))
             tags = _tags(world, op, faults, shim, ctx)
